@@ -6,7 +6,10 @@ to the real TriggerHandler configured with method/line span and capture tracepoi
 handler opened and completed at every event are compared inside Coq with Callbacks.run.  A direct
 oracle (spans closed exactly once, by the opening thread, after the opening event, while the opener
 is running, store drained) is applied to the recorders."""
+import collections
+import os
 import queue
+import sys
 import threading
 
 from ..lib import coqlit as L
@@ -376,6 +379,87 @@ def ident_reuse(ctx, rounds):
     world.clear_pending()
 
 
+GEN_SRC = '''
+def numbers(n):
+    for i in range(n):
+        yield i * i
+    return "done"
+
+def plain(x):
+    return x + 1
+
+def fails(x):
+    raise ValueError("no %d" % x)
+
+def main():
+    out = [sum(numbers(3)), plain(4)]
+    try:
+        fails(2)
+    except ValueError as e:
+        out.append(str(e))
+    return out
+'''
+
+
+def live_generators(ctx):
+    """Real frames under sys.settrace: a capture tracepoint on a GENERATOR function (python reports every yield as a return of the
+    frame and every resumption as a call), on a plain function and on one that raises: whatever was deferred is completed - each
+    snapshot handed over once, on the opening thread, nothing left pending."""
+    from deep.api.tracepoint.trigger import LocationAction, Trigger, FunctionLocation, Location
+    d = os.path.join(os.path.dirname(os.path.dirname(os.path.dirname(os.path.abspath(__file__)))), "build", "live_c15")
+    os.makedirs(d, exist_ok=True)
+    path = os.path.join(d, "gens_%d.py" % os.getpid())
+    base = os.path.basename(path)
+    for nthreads in (1, 2):
+        world = e2.World(logger=False, spans=0, metrics=0)
+        world.clear_pending()
+        trigs = []
+        for fn in ("numbers", "plain", "fails"):
+            conf = {"fire_count": "-1", "fire_period": "0", "frame_type": "no_frame", "watches": [], "stage": "method_capture"}
+            trigs.append(Trigger(FunctionLocation(base, fn, Location.Position.CAPTURE),
+                                 [LocationAction("cap-" + fn, None, conf, LocationAction.ActionType.Snapshot)]))
+        world.install(trigs)
+        calls = collections.Counter()
+
+        def tracer(frame, event, arg, world=world):
+            if event not in ("call", "line", "return", "exception"):
+                return tracer
+            if event == "call" and os.path.basename(frame.f_code.co_filename) == base and frame.f_code.co_name in ("numbers", "plain", "fails"):
+                calls[(threading.get_ident(), frame.f_code.co_name)] += 1
+            r = world.handler.trace_call(frame, event, arg)
+            return tracer if r is not None else None
+        glb = {"__name__": "gens"}
+        exec(compile(GEN_SRC, path, "exec"), glb)
+        results = []
+
+        def body():
+            sys.settrace(tracer)
+            try:
+                results.append(glb["main"]())
+            finally:
+                sys.settrace(None)
+        ths = [threading.Thread(target=body) for _ in range(nthreads)]
+        for t in ths:
+            t.start()
+        for t in ths:
+            t.join()
+        got = collections.Counter((tid, tp[4:]) for what, tp, tid, _p in world.log if what == "snapshot")
+        pending = {k: len(v) for k, v in world.pending().items() if v}
+        j = dict(live=True, threads=nthreads, openings={"%s" % k[1]: v for k, v in calls.items()}, completed={"%s" % k[1]: v for k, v in got.items()},
+                 program_results=results)
+        ctx.case(j, nontrivial=True, bucket="live-generators")
+        if results != [[5, 5, "no 2"]] * nthreads:
+            ctx.fail("the traced program computed %r" % (results,), j, kind="history", tag="live-gen-host")
+        for key, n in calls.items():
+            if got.get(key, 0) != n:
+                ctx.fail("function %s was entered (or resumed) %d times on a thread with a capture tracepoint that fires every time, "
+                         "and %d deferred snapshots were completed there: a deferred snapshot was dropped or completed elsewhere" % (
+                             key[1], n, got.get(key, 0)), j, kind="history", tag="live-gen-completed-once")
+        if pending:
+            ctx.fail("contexts left pending after the threads ended: %r" % (pending,), j, kind="history", tag="live-gen-pending")
+        world.clear_pending()
+
+
 def run(ctx):
     import logging
     from ..lib.quiet import quiet_logging
@@ -414,6 +498,7 @@ def run(ctx):
             cj.append(desc)
     ctx.correspond("callbacks", IMPORTS, "cb_case", "check_cb_case", lits, cj, shard=100)
     ident_reuse(ctx, 60 if ctx.thorough else 25)
+    live_generators(ctx)
 
 
 def replay(ctx, data):
